@@ -139,7 +139,138 @@ def rat_equal(a, b) -> bool:
 ARITH = ("add", "mul", "pow")
 
 
+def _scope_walk(t):
+    """Sub-terms of t in the same binder scope (does not descend into lam bodies)."""
+    seen = set()
+    stack = [t]
+    while stack:
+        x = stack.pop()
+        if not isinstance(x, tuple) or id(x) in seen:
+            continue
+        seen.add(id(x))
+        if x and isinstance(x[0], str):
+            yield x
+            if x[0] == "lam":
+                continue
+        stack.extend(reversed(x))
+
+
+def hoist_ite(t, depth=0):
+    """Canonical placement of conditionals: every ite of the current scope is lifted to the top
+    (f(ite(c, a, b)) == ite(c, f(a), f(b))), tests ordered by digest.  Bounded (<= 4 distinct tests)."""
+    if depth > 4 or not isinstance(t, tuple):
+        return t
+    tests = {}
+    for s in _scope_walk(t):
+        if s[0] == "ite":
+            tests.setdefault(key(s[1]), s[1])
+    if not tests:
+        return t
+    if t[0] == "ite" and len(tests) == 1:
+        return t
+    k0 = sorted(tests)[0]
+    c = tests[k0]
+
+    def pick(which):
+        def rw(s):
+            if s[0] == "ite" and key(s[1]) == k0:
+                return s[2] if which else s[3]
+            return None
+        return _subst_scope(t, rw)
+    from .terms import mk_ite
+    return mk_ite(c, hoist_ite(pick(True), depth + 1), hoist_ite(pick(False), depth + 1))
+
+
+def _subst_scope(t, fn):
+    memo = {}
+
+    def go(x):
+        if not isinstance(x, tuple):
+            return x
+        if id(x) in memo:
+            return memo[id(x)][1]
+        if x and x[0] == "lam":
+            memo[id(x)] = (x, x)
+            return x
+        items = [go(y) for y in x]
+        new = tuple(items) if any(a is not b for a, b in zip(items, x)) else x
+        if new and isinstance(new[0], str):
+            from .terms import renorm
+            if new is not x:
+                new = renorm(new)
+            r = fn(new)
+            if r is not None:
+                new = go(r) if r is not new else r
+        memo[id(x)] = (x, new)
+        return new
+    return go(t)
+
+
+ALL, ANY, LEN = ("ext", "builtins.all"), ("ext", "builtins.any"), ("ext", "builtins.len")
+
+
+def logic_norm(t):
+    """not all(p(e) for e in S) == any(not p(e) ...);  len([e for e in S if c(e)]) == 0 == all(not c(e) ...);
+    [e for e in S] == S (as a sequence)."""
+    from .terms import mk_not, mk_cmp
+
+    from .terms import subst_free
+
+    def beta1(lam, arg):
+        lvl = lam[3]
+        return subst_free(lam[2], lvl, lambda z: arg if z == ("bv", lvl, 0) else None)
+
+    def rw(s):
+        if s[0] == "map" and s[1][0] == "lam" and s[1][1] == 1 and len(s[1]) > 3 and s[1][2] == ("bv", s[1][3], 0):
+            return s[2]
+        if s[0] == "map" and s[1][0] == "lam" and s[1][1] == 1 and len(s[1]) > 3:
+            src = s[2]
+            # comprehension over a literal sequence: expand elementwise
+            if src[0] in ("tuple", "list") and not any(x[0] == "star" for x in src[1]):
+                return ("list", tuple(beta1(s[1], x) for x in src[1]))
+            # map fusion: [f(y) for y in [g(x) for x in S]] == [f(g(x)) for x in S]
+            if src[0] == "map" and src[1][0] == "lam" and src[1][1] == 1 and len(src[1]) > 3:
+                inner = src[1]
+                return ("map", ("lam", 1, beta1(s[1], inner[2]), inner[3]), src[2])
+        if s[0] == "call" and s[1] in (("ext", "builtins.tuple"), ("ext", "builtins.list")) and len(s[2]) == 1 and not s[3] \
+                and s[2][0][0] in ("tuple", "list"):
+            return ("tuple" if s[1][1].endswith("tuple") else "list", s[2][0][1])
+        if s[0] == "not" and s[1][0] == "call" and s[1][1] == ALL and len(s[1][2]) == 1 and s[1][2][0][0] == "map":
+            m = s[1][2][0]
+            return ("call", ANY, (("map", ("lam", m[1][1], mk_not(m[1][2])) + tuple(m[1][3:]), m[2]),), ())
+        if s[0] == "not" and s[1][0] == "call" and s[1][1] == ANY and len(s[1][2]) == 1 and s[1][2][0][0] == "map":
+            m = s[1][2][0]
+            return ("call", ALL, (("map", ("lam", m[1][1], mk_not(m[1][2])) + tuple(m[1][3:]), m[2]),), ())
+        if s[0] == "cmp" and s[1] == "==":
+            for a, b in ((s[2], s[3]), (s[3], s[2])):
+                if b == C(0) and a[0] == "call" and a[1] == LEN and len(a[2]) == 1:
+                    f = a[2][0]
+                    if f[0] == "filter":
+                        lam = f[1]
+                        return ("call", ALL, (("map", ("lam", lam[1], mk_not(lam[2])) + tuple(lam[3:]), f[2]),), ())
+        return None
+    prev = None
+    cur = t
+    for _ in range(4):
+        if prev is not None and same(prev, cur):
+            break
+        prev = cur
+        cur = subst(cur, rw)
+    return cur
+
+
 def equal(a, b) -> bool:
+    if _equal_core(a, b):
+        return True
+    if not isinstance(a, tuple) or not isinstance(b, tuple):
+        return False
+    na, nb = logic_norm(hoist_ite(a)), logic_norm(hoist_ite(b))
+    if same(na, a) and same(nb, b):
+        return False
+    return _equal_core(na, nb)
+
+
+def _equal_core(a, b) -> bool:
     """Semantic equality of canonical terms: structural descent to the minimal differing
     subterm pairs, each decided exactly in the rational fragment (cross-multiplication of
     polynomials over opaque atoms).  Raises Inconclusive when the polynomials get too big."""
@@ -191,10 +322,11 @@ def sigma(t):
     tag = t[0]
     if tag == "attr" and t[2] in SWAP:
         return ("attr", sigma(t[1]), SWAP[t[2]])
-    if tag == "fold":
-        return ("fold", toggle_iter(sigma(t[1])), sigma(t[2]), sigma(t[3]))
-    if tag == "scan_ys":
-        return ("scan_ys", toggle_iter(sigma(t[1])), sigma(t[2]), sigma(t[3]))
+    if tag in ("fold", "scan_ys"):
+        # only a loop over child bijections is direction-sensitive (its body reaches a child method)
+        over_children = any(z[0] == "attr" and z[2] in SWAP for z in walk(t[2]))
+        it2 = toggle_iter(sigma(t[1])) if over_children else sigma(t[1])
+        return (tag, it2, sigma(t[2]), sigma(t[3]))
     return tuple(sigma(x) if isinstance(x, tuple) else x for x in t)
 
 
